@@ -4,6 +4,7 @@
 package witness
 
 import (
+	"os"
 	"reflect"
 	"testing"
 	"time"
@@ -63,10 +64,16 @@ func TestC13_SnapshotPermsAndModes(t *testing.T) {
 	}
 }
 
-// NOT repaired (finding member-getter-live-object; the name keeps it out of `^TestC13_`):
-// User.Channels(c) / Channel.Users(c) return the tracked objects themselves. Passes after
-// notes/proposed-fixes/member-getter-live-object.diff; rename to TestC13_... then.
-func TestPendingC13_MemberGettersReturnCopies(t *testing.T) {
+// Observation, not a C13 violation (coordinator's decision): User.Channels(c) / Channel.Users(c)
+// (and Trusted / Admins) are documented to return references, and they do return the tracked
+// objects themselves; C13 is about Client.LookupUser / LookupChannel / Users / Channels. The test
+// shows what that means (model: C13_member_getters_refuted); it is skipped unless
+// VERIF_RUN_OBSERVATIONS=1 and its name keeps it out of `^TestC13_`. It would pass after
+// notes/proposed-fixes/member-getter-live-object.diff.
+func TestObservationC13_MemberGettersReturnReferences(t *testing.T) {
+	if os.Getenv("VERIF_RUN_OBSERVATIONS") == "" {
+		t.Skip("documented behaviour (references); set VERIF_RUN_OBSERVATIONS=1 to see it")
+	}
 	s := heapJoined(t)
 	defer s.Stop()
 	chans := s.C.LookupUser("alice").Channels(s.C)
@@ -91,5 +98,42 @@ func TestPendingC13_MemberGettersReturnCopies(t *testing.T) {
 	}
 	if bob == "" {
 		t.Fatal("bob not returned")
+	}
+}
+
+// Guards (pass on the current tree): the two orders of events the seeded regressions
+// seeded/C13-1 and seeded/C13-2 need.
+func TestC13_ModeSetAgainAfterSnapshot(t *testing.T) {
+	s := heapJoined(t)
+	defer s.Stop()
+	s.Feed(":alice!a@h MODE #chan +l 10")
+	snap := s.C.LookupChannel("#chan")
+	s.Feed(":alice!a@h MODE #chan +l 20")
+	if v, _ := snap.Modes.Get("l"); v != "10" {
+		t.Fatalf("a later MODE +l 20 changed a snapshot taken while +l 10 was set: %q", v)
+	}
+	snap2 := s.C.LookupChannel("#chan")
+	snap2.Modes.Apply(snap2.Modes.Parse("+l", []string{"30"}))
+	if v, _ := s.C.LookupChannel("#chan").Modes.Get("l"); v != "20" {
+		t.Fatalf("Modes.Apply(+l 30) on a snapshot changed the tracked channel: %q", v)
+	}
+}
+
+func TestC13_EmptyListSnapshotAppend(t *testing.T) {
+	s := heapJoined(t)
+	defer s.Stop()
+	s.Feed(":bob!b@h JOIN #x")
+	s.Feed(":bob!b@h PART #x")
+	snap := s.C.LookupChannel("#x")
+	if snap == nil || len(snap.UserList) != 0 {
+		t.Fatalf("expected a tracked empty channel, got %#v", snap)
+	}
+	snap.UserList = append(snap.UserList, "mallory")
+	s.Feed(":carol!c@h JOIN #x")
+	if !reflect.DeepEqual(snap.UserList, []string{"mallory"}) {
+		t.Fatalf("a later JOIN changed the snapshot: %v", snap.UserList)
+	}
+	if got := s.C.LookupChannel("#x").UserList; !reflect.DeepEqual(got, []string{"carol"}) {
+		t.Fatalf("an append on a snapshot changed the tracked channel: %v", got)
 	}
 }
